@@ -32,7 +32,7 @@ FAMILY = {
     'dtcwt/coeffs.py': ['C18', 'C03', 'C04'],
     'utils.py': ['C03', 'C11', 'C01', 'C04'],
     'scatternet/layers.py': ['C08', 'C09', 'C16'],
-    'scatternet/lowlevel.py': ['C08', 'C09', 'C16'],
+    'scatternet/lowlevel.py': ['C08', 'C09', 'C16', 'C01'],
 }
 SKIP_FUNCS = {'pywt_coeffs', 'extra_repr', 'drawcirc', 'drawedge', 'asfarray', 'appropriate_complex_type_for',
               'stacked_2d_matrix_vector_prod', 'stacked_2d_vector_matrix_prod', 'stacked_2d_matrix_matrix_prod',
